@@ -131,7 +131,8 @@ def exGraph : GraphVal :=
 
 def exOrder : List Nat := [0, 1, 2, 3, 4]
 def exAgg : Agg :=
-  { imports := [(['x', ':', 'y', '/', 'i', '@', '1', '.', '0', '.', '0'], { kind := .instance, iface := some ['x', ':', 'y', '/', 'i', '@', '1', '.', '0', '.', '0'] }), (['f'], { kind := .func })] }
+  { imports := [(['x', ':', 'y', '/', 'i', '@', '1', '.', '0', '.', '0'], { kind := .instance, iface := some ['x', ':', 'y', '/', 'i', '@', '1', '.', '0', '.', '0'] }), (['f'], { kind := .func })],
+    ifaces := [['x', ':', 'y', '/', 'i', '@', '1', '.', '0', '.', '0']] }
 
 theorem exGraph_wf : WF exGraph := wfCheck_sound (by decide)
 theorem exGraph_toposort : toposort exGraph = .ok exOrder := by decide
